@@ -10,7 +10,7 @@ class C08(common.SpecCheck):
     QUICK = {"nseeds": 8, "specs": 250, "round": 250, "budget": 0}
     rule = ("N compile nodes that differ only in interpreter hash seed compile the same partitioned specification "
             "(classes S, O, A-partitioned, K, T; metrics specs are covered by C11's replicas) in lock step. Invariants: "
-            "(a) inside each node, parse-and-compile twice more -> byte-identical text; (b) every distinct text is closed; "
+            "(a) inside each node, parse-and-compile twice more, and compile twice from ONE set of parsed objects -> byte-identical text; (b) every distinct text is closed; "
             "(c) all texts executed on identical inputs leave identical tensors under every <Name>_<Ranks> name they have "
             "in common and identical outputs, equal to the dense model; (d) a compile that succeeds under one seed "
             "succeeds under all. distinct = distinct (spec, text); non-trivial = the spec produced >= 2 distinct texts "
@@ -91,7 +91,7 @@ class C08(common.SpecCheck):
         if len(texts) >= 2:
             stats.add("specs_with_several_texts")
             self._nontrivial = getattr(self, "_nontrivial", 0) + len(texts)
-        stats.add("recompiles_in_process", 2 * len(results))
+        stats.add("recompiles_in_process", 4 * len(results))
 
     def extend_evidence(self, ev):
         ev["coverage"]["distinct_nontrivial"] = getattr(self, "_nontrivial", 0)
